@@ -26,6 +26,9 @@ def plan(tier, seed):
     for depth in (2, 4, 6, 8):
         specs.append({"klass": "diamond", "i": k, "depth": depth})
         k += 1
+    for j in range(len(DERIV_READS_DERIV)):
+        specs.append({"klass": "derivative_reads_derivative", "i": k, "text": DERIV_READS_DERIV[j]})
+        k += 1
     n = 400 if tier == "quick" else 4000
     for j in range(n):
         specs.append({"klass": "random", "i": j, "fill": j >= 8})
@@ -33,6 +36,15 @@ def plan(tier, seed):
         s["prop"] = ID
         s.setdefault("soft_timeout", 200)
     return specs
+
+
+# a state derivative is an assignment like any other: other assignments may read it
+DERIV_READS_DERIV = [
+    "parameters(a=3.0)\nstates(x=1.0, y=2.0)\n\ndx_dt = -a * x\ndy_dt = 2 * dx_dt + y\n",
+    "parameters(a=3.0)\nstates(x=1.0, y=2.0)\n\ndx_dt = -a * x * y\nw = dx_dt * 0.5 + x\ndy_dt = w + y\n",
+    "parameters(a=3.0, b=0.5)\nstates(x=1.0, y=2.0, z=0.25)\n\ndx_dt = -a * x + z\ndy_dt = 2 * dx_dt + y * b\nu = dy_dt - dx_dt\ndz_dt = u * z + exp(-x)\n",
+    "parameters(a=3.0)\nstates(\"A\", x=1.0)\nstates(\"B\", y=2.0)\n\nexpressions(\"B\")\ndy_dt = sin(dx_dt) + y\n\nexpressions(\"A\")\ndx_dt = -a * x + y * y\n",
+]
 
 
 def chain_model(depth):
@@ -104,7 +116,7 @@ def run_case(spec, ctx):
         idx = PyModule(oc.value).names("state")
         if [n for n, _ in sorted(idx.items(), key=lambda kv: kv[1])] != order:
             out["violations"].append({"kind": "state_order_differs_from_generated_code", "detail": {"states_matrix": order, "generated": idx}})
-    inter_syms = {ode.symbols[n] for n in ref.intermediates if n in ode.symbols}
+    inter_syms = {ode.symbols[n] for n in list(ref.intermediates) + list(ref.derivs.values()) if n in ode.symbols}
     for i, row in enumerate(rm.value):
         left = row.free_symbols & inter_syms
         if left:
@@ -148,7 +160,8 @@ def run_case(spec, ctx):
                     # + an absolute floor for the noise of sympy's own 30-digit evalf (e.g. pi - pi evaluates to 1e-163)
                     tol = float(E.tolerance(gv)) + 1e-10 * abs(float(g.d)) + 1e-25
                     if not abs(gotj - float(g.d)) <= tol:
-                        out["violations"].append({"kind": "jacobian_entry", "detail": {"row": s, "col": s2, "got": gotj, "expected": float(g.d), "tol": tol, "point": pt if len(pt) < 10 else None}})
+                        out["violations"].append({"kind": "jacobian_entry", "detail": {"row": s, "col": s2, "got": gotj, "expected": float(g.d), "tol": tol, "point": pt if len(pt) < 10 else None},
+                                                  "_cls": {"rhs_row": rm.value[i], "ode": ode, "evalf": evalf}})
     cn["compared"] = compared
     out["nontrivial"] = compared >= 3
     return finish(out, text, spec, ref)
@@ -158,7 +171,7 @@ def finish(out, text, spec, ref):
     if out["violations"]:
         out["status"] = "violated"
     for v in out["violations"]:
-        F.classify(ID, v, text=text, ref=ref)
+        F.classify(ID, v, text=text, ref=ref, **(v.pop("_cls", None) or {}))
     out["model_text"] = text if out["violations"] else None
     if spec["i"] % 9 == 0:
         out["sample"] = {"klass": spec["klass"], "model_text": text[:500], "counters": out["counters"], "status": out["status"]}
